@@ -200,6 +200,12 @@ def enum_contents(seed):
             if i % 5 == 0:
                 # device records whose path cannot even be looked up on the file system the check runs on: below a regular file, a name longer than any file system takes
                 ents += [fs.fsDev(p + "/below-a-file.dev", major=4, minor=1, mode=0o20600, uid=0, gid=0, mtime=1), fs.fsDev("/" + "n" * 300, major=4, minor=2, mode=0o20600, uid=0, gid=0, mtime=1)]
+                # device records whose path is taken, when the record is read, by something that is no file, directory or fifo: a symbolic link (device
+                # numbers 0, 0), and live device nodes of the machine the check runs on, one of them with a zero in its numbers (/dev/tty is 5, 0)
+                lnk = os.path.join(d, f"node-now-a-link{i}")
+                os.symlink("nowhere", lnk)
+                ents += [fs.fsDev(lnk, major=9, minor=9, mode=0o20600, uid=0, gid=0, mtime=1)]
+                ents += [fs.fsDev(n, major=1, minor=1, mode=0o20666, uid=0, gid=0, mtime=1) for n in ("/dev/tty", "/dev/null", "/dev/zero") if os.path.lexists(n)]
             src = p if via == "path" else _ds.data_source("", mutable=True)
             cases += 1
             try:
@@ -254,7 +260,7 @@ def enum_contents(seed):
                         bad = f"raised {type(ex_).__name__}: {ex_}"
                     if bad and len(fails) < 4:
                         fails.append({"model": {"location": nm, "kind": "replacement of entries, second flush", "source": via, "instance": who}, "detail": f"[{via} source] entries replaced in place on {who}, flushed, read back: " + bad})
-    return {"name": "C24.codec.bounded_enumeration", "bound": f"{len(names)} awkward paths (spaces incl. leading/trailing/double, '->' fragments, unicode, tabs, the 8 characters at which only str.splitlines() breaks a line) x 5 entry kinds (a device entry without a live node; names ending in blanks / tabs included) through a real file and through a data source",
+    return {"name": "C24.codec.bounded_enumeration", "bound": f"{len(names)} awkward paths (spaces incl. leading/trailing/double, '->' fragments, unicode, tabs, the 8 characters at which only str.splitlines() breaks a line) x 5 entry kinds (a device entry without a live node, below a file, with an over-long name, with a symbolic link or a live device node -- zero numbers included -- at its path; names ending in blanks / tabs included) through a real file and through a data source",
             "cases": cases, "failures": fails}
 
 
